@@ -1,5 +1,5 @@
 from .. import facts
-from ..rules import sampling, tables, geometry, traps
+from ..rules import sampling, tables, geometry, traps, prefetch
 
 
 def run(ck):
@@ -13,3 +13,4 @@ def run(ck):
     traps.r7_edge_clamps(ck, P)
     sampling.r11_rounding_epsilon(ck, P)
     sampling.r12_wrap_is_a_loop(ck, P)
+    prefetch.r10_no_unconsumed_fetch(ck, P)
